@@ -76,6 +76,7 @@ type Contract struct {
 	MaxPaths    int
 	MergeExits  bool
 	GuardsOn    bool
+	GhostEntry  []*Effect // ghost assignments executed at function entry (explicit instrumentation)
 	LoopInvs    []*Clause
 	Writes      []string // slice parameters whose elements the function writes
 	SafetyProps []string
@@ -541,6 +542,20 @@ func (cf *ContractFile) parseOne(path string) error {
 					cl.Name = fmt.Sprintf("loopinv.%d", len(c.LoopInvs)+1)
 				}
 				c.LoopInvs = append(c.LoopInvs, cl)
+			case "ghostentry":
+				l, r, ok := strings.Cut(rest, " = ")
+				if !ok {
+					return fail(fmt.Errorf("ghostentry needs LHS = RHS"))
+				}
+				le, err := parser.ParseExpr(l)
+				if err != nil {
+					return fail(err)
+				}
+				re, err := parser.ParseExpr(rewriteSpecSyntax(r))
+				if err != nil {
+					return fail(err)
+				}
+				c.GhostEntry = append(c.GhostEntry, &Effect{LHS: le, RHS: re, Src: rest})
 			case "writes":
 				c.Writes = append(c.Writes, strings.Fields(strings.ReplaceAll(rest, ",", " "))...)
 			case "guards":
